@@ -14,6 +14,7 @@ from textx import metamodel_from_str
 from textx.exceptions import TextXError, TextXSemanticError
 from textx.model import get_model
 from textx.scoping import ModelLoader, Postponed
+from textx.scoping.tools import needs_to_be_resolved
 import textx.scoping.providers as sp
 from textx.scoping.rrel import create_rrel_scope_provider
 
@@ -63,11 +64,26 @@ class Scheduler:
         fn = getattr(model, "_tx_filename", None) or getattr(self, "anon_file", None) or self.world.main
         return self.by_pos.get((fn, obj_ref.position))
 
-    def decide(self, ref):
+    def decide(self, ref, obj=None):
         """True = answer now, False = Postponed."""
         n = self.calls[ref.key]
         plan = ref.plan
         if not self.enabled or plan[0] == "now":
+            return True
+        if plan[0] == "after-attr":
+            # the way real providers wait: ask textX whether the attribute holding the awaited reference still has
+            # unresolved references (textx.scoping.tools.needs_to_be_resolved), not a bookkeeping of our own
+            models = collect_models(get_model(obj))
+            by_key = getattr(self, "by_key", None)
+            if by_key is None:
+                by_key = self.by_key = {r.key: r for r in self.world.refs}
+            for k in plan[1]:
+                d = by_key[k]
+                m = models.get(d.owner.file)
+                if m is None:
+                    return False
+                if needs_to_be_resolved(locate(m, d.owner.path()), d.attr):
+                    return False
             return True
         if plan[0] == "never":
             return False
@@ -116,7 +132,7 @@ class ScriptedProvider(ModelLoader):
         if s.calls[ref.key] > s.budget:
             self.ctx.ev("prov", ref.key, "BUDGET")
             raise Budget(ref.key)
-        if not s.decide(ref):
+        if not s.decide(ref, obj):
             s.postponements += 1
             s.trace.append((ref.key, "P"))
             self.ctx.ev("prov", ref.key, "postponed")
@@ -138,6 +154,15 @@ class ScriptedProvider(ModelLoader):
 def fixpoint(refs):
     done = set()
     changed = True
+    by_key = {r.key: r for r in refs}
+
+    def attr_done(k):
+        # waiting for a reference by asking textX about its attribute = waiting for every reference of that attribute
+        d = by_key.get(k)
+        if d is None:
+            return True
+        return all(x.key in done for x in d.owner.refs if x.attr == d.attr)
+
     while changed:
         changed = False
         for r in refs:
@@ -147,6 +172,8 @@ def fixpoint(refs):
             if p[0] == "never":
                 continue
             if p[0] == "after" and not all(k in done for k in p[1]):
+                continue
+            if p[0] == "after-attr" and not all(attr_done(k) for k in p[1]):
                 continue
             done.add(r.key)
             changed = True
@@ -316,6 +343,11 @@ def episode(ctx, t, prop, family, tools, memo, mm, rep):
     else:
         mode = t.pick(["dag", "rounds", "dag", "eager"], "mode")
     draw_schedule(t, refs, mode)
+    if mode in ("deps", "dag") and not anon and t.chance(1, 3, "provider-asks-textx"):
+        for r in refs:
+            if r.plan[0] == "after":
+                r.plan = ("after-attr", r.plan[1])
+        ctx.probe("provider-waits-by-asking-textx")
     for r in w.refs:
         if r.owner.file not in closure:
             r.plan = ("now",)
